@@ -2,6 +2,7 @@ package parser
 
 import (
 	"fmt"
+	"math"
 	"strconv"
 	"strings"
 
@@ -51,7 +52,7 @@ func (v *PacketDslVisitorImpl) metaDataDeclarationToMetaData(ctx *gen.MetaDataDe
 			Type: ctx.Type_().GetText(),
 		}
 	} else if ctx.Type_().FixedString() != nil {
-		size, _ := strconv.Atoi(ctx.Type_().FixedString().DIGITS().GetText())
+		size := v.fixedStringSize(ctx.Type_().FixedString())
 		if strings.Contains(ctx.Type_().GetText(), "zchar") {
 			attr = &model.FixedStringFieldAttribute{
 				Length:  size,
@@ -425,6 +426,22 @@ func (v *PacketDslVisitorImpl) VisitInerObjectField(ctx *gen.InerObjectFieldCont
 	}
 }
 
+// fixedStringSize returns the size N of char[N] / zchar[N]. A size that does not fit
+// a 32-bit signed integer cannot be expressed by the targets (and the generators build
+// sample values of N characters): it is reported as a diagnostic and replaced by 0.
+func (v *PacketDslVisitorImpl) fixedStringSize(ctx gen.IFixedStringContext) int {
+	size, err := strconv.Atoi(ctx.DIGITS().GetText())
+	if err != nil || size > math.MaxInt32 {
+		v.BinModel.AddSyntaxError(&model.SyntaxError{
+			Line:   ctx.GetStart().GetLine(),
+			Column: ctx.GetStart().GetTokenSource().GetCharPositionInLine(),
+			Msg:    "Fixed string size out of range: " + ctx.GetText(),
+		})
+		return 0
+	}
+	return size
+}
+
 func (v *PacketDslVisitorImpl) metaDataDeclarationToField(ctx *gen.MetaDataDeclarationContext) interface{} {
 	// Field name
 	name := ctx.GetName().GetText()
@@ -435,7 +452,7 @@ func (v *PacketDslVisitorImpl) metaDataDeclarationToField(ctx *gen.MetaDataDecla
 			Type: ctx.Type_().GetText(),
 		}
 	} else if ctx.Type_().FixedString() != nil {
-		size, _ := strconv.Atoi(ctx.Type_().FixedString().DIGITS().GetText())
+		size := v.fixedStringSize(ctx.Type_().FixedString())
 		if strings.Contains(ctx.Type_().GetText(), "zchar") {
 			attr = &model.FixedStringFieldAttribute{
 				Length:  size,
